@@ -171,7 +171,225 @@ fn fail_oneshot(data: &[u8], desc: &str) -> Fail {
     }
 }
 
+/// Pseudo-random bytes a human can regenerate: x <- x*1664525 + 1013904223 (u32, wrapping),
+/// byte i = top 8 bits of x after the i-th step, x0 = seed.
+fn lcg_bytes(seed: u32, n: usize) -> Vec<u8> {
+    let mut x = seed;
+    (0..n)
+        .map(|_| {
+            x = x.wrapping_mul(1664525).wrapping_add(1013904223);
+            (x >> 24) as u8
+        })
+        .collect()
+}
+
+/// One input of a reuse history: (bytes, description from which it can be rebuilt).
+fn history_input(ctx: &mut Ctx, rich: bool) -> (Vec<u8>, String) {
+    if rich {
+        // activates about ten levels, many of them with 32 pieces or more
+        let n = *ctx.rng.pick(&[20_000usize, 60_000, 100_000, 100_000, 150_000, 400_000]) + ctx.rng.range(0, 999);
+        let seed = ctx.rng.next() as u32;
+        return (lcg_bytes(seed, n), format!("{} bytes from the LCG x<-x*1664525+1013904223 (u32), x0={}, byte=x>>24", n, seed));
+    }
+    match ctx.rng.below(9) {
+        0 => {
+            let n = *ctx.rng.pick(&[20_000usize, 6_001, 50_000, 12_289, 196_609, 1_000]);
+            (vec![0u8; n], format!("{} zero bytes", n))
+        }
+        1 => {
+            let n = *ctx.rng.pick(&[6_001usize, 20_000, 3_000, 100_000]);
+            let mut d = vec![0u8; n];
+            d.extend_from_slice(b"end of file\n");
+            (d, format!("{} zero bytes + b\"end of file\\n\"", n))
+        }
+        2 => {
+            let n = *ctx.rng.pick(&[6_000usize, 20_000, 40_000, 200_000]);
+            let mut d = vec![0u8; n];
+            d.push(1);
+            (d, format!("{} zero bytes + one byte 0x01", n))
+        }
+        3 => (vec![], "the empty input".to_string()),
+        4 => {
+            let n = ctx.rng.range(1, 20);
+            let seed = ctx.rng.next() as u32;
+            let d = lcg_bytes(seed, n);
+            let desc = format!("short: {}", show_bytes(&d));
+            (d, desc)
+        }
+        5 => {
+            // low entropy: one byte value repeated
+            let n = *ctx.rng.pick(&[5_000usize, 30_000, 70_000]);
+            let b = ctx.rng.byte();
+            (vec![b; n], format!("{} bytes 0x{:02x}", n, b))
+        }
+        6 => {
+            // periodic with a short period
+            let n = *ctx.rng.pick(&[8_000usize, 25_000, 90_000]);
+            let p = ctx.rng.range(2, 9);
+            ((0..n).map(|i| (i % p) as u8).collect(), format!("{} bytes, byte i = i mod {}", n, p))
+        }
+        7 => {
+            // sparse: zeros with a few adversarial trigger words (pieces only at a high level)
+            let n = *ctx.rng.pick(&[10_000usize, 30_000, 100_000]);
+            let lvl = ctx.rng.range(3, 12) as u8;
+            let pieces = ctx.rng.range(1, 6);
+            let d = gen::adversarial(&mut ctx.rng, n, lvl, pieces, 4);
+            let desc = format!("sparse: {}", show_bytes(&d));
+            (d, desc)
+        }
+        _ => {
+            let (d, desc) = gen::gen_input(&mut ctx.rng, 5);
+            let desc = format!("{}: {}", desc, show_bytes(&d));
+            (d, desc)
+        }
+    }
+}
+
+/// History on ONE generator object: rich input -> finalize -> reset -> sparse / low-entropy /
+/// short / empty input -> finalize -> reset -> rich again ..., with and without a declared
+/// size in between, mixing the update forms; every finalization is compared with the
+/// reference CTPH of the bytes fed since the last reset.
+pub fn reuse_history(ctx: &mut Ctx, tag: &str) -> R {
+    let mut g = Generator::new();
+    let mut log: Vec<String> = Vec::new();
+    let mut done: Vec<(Vec<u8>, String, Option<u64>)> = Vec::new();
+    let phases = ctx.rng.range(2, 6);
+    let start_rich = !ctx.rng.chance(1, 5);
+    for phase in 0..phases {
+        ctx.input();
+        let rich = (phase % 2 == 0) == start_rich;
+        let (data, desc) = history_input(ctx, rich);
+        // a declared size: none, the right one, or a wrong one (whose limit must not survive reset)
+        let declared: Option<u64> = match ctx.rng.below(8) {
+            0 | 1 | 2 => Some(data.len() as u64),
+            3 => Some(*ctx.rng.pick(&[0u64, 10, 100, 5_000])).filter(|&d| d != data.len() as u64),
+            _ => None,
+        };
+        let mut entry = format!("[{}] ", desc);
+        let res = guard(|| {
+            let mut plan = String::new();
+            if let Some(d) = declared {
+                if g.set_fixed_input_size(d).is_err() {
+                    return (plan, Some(("set-fixed-input-size-result", format!("real code: set_fixed_input_size({}) on a generator without a declaration = Err\noracle: Ok(())", d))));
+                }
+                plan.push_str(&format!("set_fixed_input_size({}) ", d));
+            }
+            if data.len() > 30_000 || ctx.rng.chance(1, 2) {
+                // large chunks (keeps the history readable and fast), forms still mixed
+                let mut pos = 0usize;
+                while pos < data.len() {
+                    let k = ctx.rng.range(1, 40_000).min(data.len() - pos);
+                    let chunk = &data[pos..pos + k];
+                    match ctx.rng.below(4) {
+                        0 => {
+                            g.update_by_iter(chunk.iter().copied());
+                            plan.push_str(&format!("update_by_iter({}) ", k));
+                        }
+                        1 => {
+                            g += chunk;
+                            plan.push_str(&format!("+=slice({}) ", k));
+                        }
+                        2 => {
+                            let (it, name) = gen::odd_iter(&mut ctx.rng, chunk);
+                            g.update_by_iter(it);
+                            plan.push_str(&format!("update_by_iter[{}]({}) ", name, k));
+                        }
+                        _ => {
+                            g.update(chunk);
+                            plan.push_str(&format!("update({}) ", k));
+                        }
+                    }
+                    pos += k;
+                }
+            } else {
+                plan.push_str(&feed_randomly(ctx, &mut g, &data));
+            }
+            plan.push_str("finalize");
+            (plan, diff_generator(&g, 0, &data, declared.map_or(true, |d| d == data.len() as u64)))
+        });
+        ctx.checks.extend(GENERATOR_CHECKS);
+        ctx.checks.insert("finalize-after-wrong-declared-size");
+        let (plan, d) = match res {
+            Ok(x) => x,
+            Err(msg) => (String::from("(panicked)"), Some(("generator-panic", format!("real code: PANICKED: {}\noracle: never panics", msg)))),
+        };
+        // keep the call list of a phase readable
+        if plan.len() > 400 {
+            let calls = plan.split(' ').count();
+            let mut cut = 300;
+            while !plan.is_char_boundary(cut) {
+                cut -= 1;
+            }
+            entry.push_str(&format!("{} ... ({} calls in all) ... finalize", &plan[..cut], calls));
+        } else {
+            entry.push_str(&plan);
+        }
+        log.push(entry);
+        done.push((data.clone(), desc.clone(), declared));
+        if let Some((check, what)) = d {
+            // does a simplified history (one update() per phase, fewer phases) show it too?
+            let simple = |hist: &[(Vec<u8>, String, Option<u64>)]| -> Option<(&'static str, String)> {
+                guard(|| {
+                    let mut g = Generator::new();
+                    let mut last = None;
+                    for (i, (bytes, _, decl)) in hist.iter().enumerate() {
+                        if let Some(d) = decl {
+                            let _ = g.set_fixed_input_size(*d);
+                        }
+                        g.update(bytes);
+                        if i + 1 == hist.len() {
+                            last = diff_generator(&g, 0, bytes, decl.map_or(true, |d| d == bytes.len() as u64));
+                        } else {
+                            let _ = g.finalize();
+                            g.reset();
+                        }
+                    }
+                    last
+                })
+                .unwrap_or_else(|msg| Some(("generator-panic", format!("real code: PANICKED: {}\noracle: never panics", msg))))
+            };
+            let n = done.len();
+            for start in [n.saturating_sub(2), 0] {
+                if let Some((check2, what2)) = simple(&done[start..]) {
+                    let lines: Vec<String> = done[start..]
+                        .iter()
+                        .map(|(b, dsc, decl)| format!("[{}] {}update(all {} bytes) finalize", dsc, decl.map_or(String::new(), |d| format!("set_fixed_input_size({}) ", d)), b.len()))
+                        .collect();
+                    return Err(Fail {
+                        check: check2,
+                        details: format!(
+                            "[{}] history on ONE generator object, simplified to one update() per phase (Generator::new(), then):\n  {}\nfailing: the last finalization, {} bytes fed since the last reset()\n{}\n(a fresh generator fed the same last input gives the reference hash: {})",
+                            tag, lines.join("\n  reset()\n  "), done[n - 1].0.len(), what2, diff_oneshot(&done[n - 1].0).is_none()
+                        ),
+                    });
+                }
+            }
+            let fresh = if declared.map_or(true, |d| d == data.len() as u64) {
+                match diff_oneshot(&data) {
+                    None => "a fresh generator fed the same bytes with one update() gives the reference hash".to_string(),
+                    Some(_) => "a fresh generator fed the same bytes with one update() disagrees with the reference too".to_string(),
+                }
+            } else {
+                "a wrong size was declared in this phase: every finalization has to fail".to_string()
+            };
+            return Err(Fail {
+                check,
+                details: format!(
+                    "[{}] failing phase: #{} , {} bytes fed since the last reset()\n{}\n({})\nhistory on ONE generator object (new(), then per phase: input, calls; reset() between phases; not reproduced by one update() per phase):\n  {}",
+                    tag, phase + 1, data.len(), what, fresh, log.join("\n  reset()\n  ")
+                ),
+            });
+        }
+        g.reset();
+    }
+    Ok(())
+}
+
 pub fn c01(ctx: &mut Ctx) -> R {
+    // reused generator objects: the documented reset() only re-initialises what a new history needs
+    for _ in 0..2 {
+        reuse_history(ctx, "C01: reused generator")?;
+    }
     // tiny inputs exhaustively-ish first
     for n in 0..=8usize {
         for v in 0..4u8 {
@@ -185,6 +403,9 @@ pub fn c01(ctx: &mut Ctx) -> R {
         let max_n = if round % 16 == 0 { 11 } else if round % 4 == 0 { 8 } else { 5 };
         let (data, desc) = gen::gen_input(&mut ctx.rng, max_n);
         c01_one(ctx, &data, &desc)?;
+        if round % 32 == 0 {
+            reuse_history(ctx, "C01: reused generator")?;
+        }
     }
     Ok(())
 }
@@ -282,6 +503,9 @@ pub fn c03(ctx: &mut Ctx) -> R {
     let mut round = 0u32;
     while ctx.alive() {
         round += 1;
+        if round % 24 == 1 {
+            reuse_history(ctx, "C03: reused generator, mixed update forms")?;
+        }
         let max_n = if round % 8 == 0 { 9 } else { 4 };
         let (data, desc) = gen::gen_input(&mut ctx.rng, max_n);
         ctx.input();
@@ -405,6 +629,7 @@ pub fn declared_vs_fed(ctx: &mut Ctx, tag: &str) -> R {
 pub fn c12(ctx: &mut Ctx) -> R {
     while ctx.alive() {
         declared_vs_fed(ctx, "C12: declared size against the bytes fed")?;
+        reuse_history(ctx, "C12: reset() and declared sizes on a reused generator")?;
         ctx.input();
         let mut log = String::new();
         let res = guard(|| c12_history(ctx, &mut log));
